@@ -4,7 +4,7 @@ of Consts.v the property depends on, the correspondence runner, and the trusted 
 TRUSTED_COMMON = [
     "Coq 8.16.1 kernel incl. its bytecode VM (vm_compute); no native_compute; no axioms declared (Print Assumptions: Closed under the global context)",
     "the hand-written Gallina model of the Rust functions (tied to /repo by the correspondence check on every run, not verified against rustc)",
-    "tools/extract_consts.py (regex translator of constants and inline literals into coq/Consts.v), tools/extract_layouts.py (digest field sequences into coq/Layouts.v) and tools/extract_purity.py (hidden-state / unsafe / ambient-input scan of the files the property reaches into coq/Purity.v), tools/extract_steps.py + tools/rustexpr.py (Rust-subset to Gallina translation of the cipher loop bodies and the RC4 output step into coq/Steps.v), all re-run on every check",
+    "tools/extract_consts.py (regex translator of constants and inline literals into coq/Consts.v), tools/extract_layouts.py (digest field sequences into coq/Layouts.v) and tools/extract_purity.py (hidden-state / unsafe / ambient-input scan of the files the property reaches into coq/Purity.v), tools/extract_steps.py + tools/rustexpr.py (Rust-subset to Gallina translation of 57 function bodies into coq/Steps.v) and tools/extract_delegations.py (which half each method of a combined crypto object delegates to, into coq/Delegations.v), all re-run on every check",
     "the Rust harness /verif/harness (generators, catch_unwind, case printer) and the guarded hooks src/verif_hooks.rs",
     "Rust integer/slice semantics as rendered in the model (wrapping ops, debug overflow checks, bounds checks)",
 ]
@@ -227,4 +227,10 @@ for _k, _fs in STEP_FILES.items():
 # property-level statements about the bodies translated from the source (props/src/Cxx.v)
 for _k in ("C02", "C03", "C04", "C05", "C06", "C07", "C08", "C09", "C10", "C11", "C13", "C14", "C16", "C18"):
     PROPS[_k]["prop_files"] = list(PROPS[_k]["prop_files"]) + ["props/src/%s.v" % _k]
+
+# delegations of the combined crypto objects to their halves (tools/extract_delegations.py + proofs/delegations/*.v)
+for _k, _fs in {"C07": ["Vanilla"], "C08": ["Tbc"], "C09": ["WrathClient", "WrathServer"], "C10": ["WrathClient", "WrathServer"],
+                "C11": ["Vanilla", "Tbc", "WrathClient", "WrathServer"], "C12": ["Vanilla", "Tbc", "WrathClient", "WrathServer"],
+                "C14": ["Vanilla", "Tbc", "WrathClient", "WrathServer"]}.items():
+    PROPS[_k]["extra_files"] = PROPS[_k]["extra_files"] + ["proofs/delegations/%s.v" % f for f in _fs]
 
